@@ -64,12 +64,27 @@ type c16Call struct {
 	Dag      bool      `json:"dag,omitempty"`
 }
 
+// c16BuildOp is one step of constructing Option values: a fresh base, or an Option derived
+// from an earlier one with DesignateNode / DesignateNodeWithPath. Every op yields one Option;
+// when a case has Build ops, the store is exactly the Options they yield (Store is then only
+// the specification view: base attributes, base paths ++ added paths).
+type c16BuildOp struct {
+	Op       string     `json:"op"` // base | designate
+	Ty       int        `json:"ty"`
+	Vals     []int      `json:"vals"`
+	Handlers []int      `json:"handlers"`
+	Src      int        `json:"src"`
+	Paths    [][]string `json:"paths"`
+	ViaKey   bool       `json:"viaKey,omitempty"`
+}
+
 type c16Case struct {
-	Store []c16Opt  `json:"store"`
-	Calls []c16Call `json:"calls"`
-	Mode  string    `json:"mode"` // seq | conc
-	Reps  int       `json:"reps,omitempty"`
-	Kind  string    `json:"kind"` // generator stream
+	Store []c16Opt     `json:"store"`
+	Build []c16BuildOp `json:"build,omitempty"`
+	Calls []c16Call    `json:"calls"`
+	Mode  string       `json:"mode"` // seq | conc
+	Reps  int          `json:"reps,omitempty"`
+	Kind  string       `json:"kind"` // generator stream
 }
 
 type c16Entry struct {
@@ -402,24 +417,69 @@ func c16BuildOption(o *c16Opt) compose.Option {
 	if len(o.Paths) == 0 {
 		return opt
 	}
+	return c16Designate(opt, o.Paths, o.ViaKey)
+}
+
+// c16Designate derives an Option from opt through the public API.
+func c16Designate(opt compose.Option, paths [][]string, viaKey bool) compose.Option {
 	allSingle := true
-	for _, p := range o.Paths {
+	for _, p := range paths {
 		if len(p) != 1 {
 			allSingle = false
 		}
 	}
-	if o.ViaKey && allSingle {
-		keys := make([]string, 0, len(o.Paths))
-		for _, p := range o.Paths {
+	if viaKey && allSingle {
+		keys := make([]string, 0, len(paths))
+		for _, p := range paths {
 			keys = append(keys, p[0])
 		}
 		return opt.DesignateNode(keys...)
 	}
-	nps := make([]*compose.NodePath, 0, len(o.Paths))
-	for _, p := range o.Paths {
+	nps := make([]*compose.NodePath, 0, len(paths))
+	for _, p := range paths {
 		nps = append(nps, compose.NewNodePath(append([]string{}, p...)...))
 	}
 	return opt.DesignateNodeWithPath(nps...)
+}
+
+// c16BuildStore runs the construction sequence on the real API.
+func c16BuildStore(ops []c16BuildOp) []compose.Option {
+	store := make([]compose.Option, 0, len(ops))
+	for i := range ops {
+		op := &ops[i]
+		if op.Op == "designate" && op.Src >= 0 && op.Src < len(store) {
+			store = append(store, c16Designate(store[op.Src], op.Paths, op.ViaKey))
+			continue
+		}
+		store = append(store, c16BuildOption(&c16Opt{Ty: op.Ty, Vals: op.Vals, Handlers: op.Handlers}))
+	}
+	return store
+}
+
+// c16SyncStore recomputes the specification view of a constructed store: attributes of the
+// base an Option derives from, base paths followed by the added paths.
+func c16SyncStore(c *c16Case) {
+	if len(c.Build) == 0 {
+		return
+	}
+	st := make([]c16Opt, 0, len(c.Build))
+	for i := range c.Build {
+		op := &c.Build[i]
+		if op.Op == "designate" && op.Src >= 0 && op.Src < len(st) {
+			b := st[op.Src]
+			o := c16Opt{Ty: b.Ty, Vals: append([]int{}, b.Vals...), Handlers: append([]int{}, b.Handlers...), Paths: [][]string{}}
+			for _, p := range b.Paths {
+				o.Paths = append(o.Paths, append([]string{}, p...))
+			}
+			for _, p := range op.Paths {
+				o.Paths = append(o.Paths, append([]string{}, p...))
+			}
+			st = append(st, o)
+			continue
+		}
+		st = append(st, c16Opt{Ty: op.Ty, Vals: append([]int{}, op.Vals...), Handlers: append([]int{}, op.Handlers...), Paths: [][]string{}})
+	}
+	c.Store = st
 }
 
 // ---------------------------------------------------------------------------------------
@@ -555,12 +615,18 @@ func c16Snapshot(opts []compose.Option) []c16Opt {
 // c16RunImpl builds the shared Option values once, runs the calls (in sequence, or all at
 // once from goroutines released by one barrier) and reports per call what was observed, plus
 // the Option values as the caller sees them afterwards.
-func c16RunImpl(c *c16Case) (results []c16Result, storeChanged string, buildErr string) {
-	store := make([]compose.Option, len(c.Store))
-	for i := range c.Store {
-		store[i] = c16BuildOption(&c.Store[i])
+func c16RunImpl(c *c16Case) (results []c16Result, built []c16Opt, storeChanged string, buildErr string) {
+	var store []compose.Option
+	if len(c.Build) > 0 {
+		store = c16BuildStore(c.Build)
+	} else {
+		store = make([]compose.Option, len(c.Store))
+		for i := range c.Store {
+			store[i] = c16BuildOption(&c.Store[i])
+		}
 	}
 	before := c16Snapshot(store)
+	built = before
 	runs := make([]compose.Runnable[any, any], len(c.Calls))
 	cache := map[string]compose.Runnable[any, any]{}
 	for i := range c.Calls {
@@ -575,10 +641,10 @@ func c16RunImpl(c *c16Case) (results []c16Result, storeChanged string, buildErr 
 		var r compose.Runnable[any, any]
 		var err error
 		if panicked, pv := vh.Safely(func() { r, err = c16Compile(&c.Calls[i]) }); panicked {
-			return nil, "", fmt.Sprint("compile-panic:", pv)
+			return nil, nil, "", fmt.Sprint("compile-panic:", pv)
 		}
 		if err != nil {
-			return nil, "", "compile-error:" + err.Error()
+			return nil, nil, "", "compile-error:" + err.Error()
 		}
 		cache[string(k)] = r
 		runs[i] = r
@@ -632,7 +698,7 @@ func c16RunImpl(c *c16Case) (results []c16Result, storeChanged string, buildErr 
 	if !vh.CanonEq(before, after) {
 		storeChanged = fmt.Sprintf("before=%s after=%s", vh.Canon(before), vh.Canon(after))
 	}
-	return results, storeChanged, ""
+	return results, built, storeChanged, ""
 }
 
 // c16Strip drops the free-text note (error message) before comparing results.
@@ -794,11 +860,12 @@ func c16Ask(ctx *vh.Ctx, c *c16Case) (*c16Out, error) {
 
 // c16Eval runs one case on both sides and reports every disagreement to ctx.Res.
 func c16Eval(ctx *vh.Ctx, c *c16Case) (agree bool, model *c16Out, err error) {
+	c16SyncStore(c)
 	model, err = c16Ask(ctx, c)
 	if err != nil {
 		return false, nil, err
 	}
-	impl, storeChanged, buildErr := c16RunImpl(c)
+	impl, built, storeChanged, buildErr := c16RunImpl(c)
 	if buildErr != "" {
 		ctx.Res.Disagree(vh.Disagreement{Signature: "C16:build:" + strings.SplitN(buildErr, ":", 2)[0], What: "the generated graph did not compile: " + buildErr, Case: c})
 		return false, model, nil
@@ -826,7 +893,20 @@ func c16Eval(ctx *vh.Ctx, c *c16Case) (agree bool, model *c16Out, err error) {
 		is = append(is, o.Paths)
 	}
 	if !vh.CanonEq(c16NormPaths(ms), c16NormPaths(is)) {
-		ctx.Res.Disagree(vh.Disagreement{Signature: "C16:model-store-changed", What: "the model changes the caller's Option values", Case: c, Model: model.Store})
+		ctx.Res.Disagree(vh.Disagreement{Signature: "C16:model-store-changed", What: "the model's Option values differ from base paths ++ added paths, or change during the calls", Case: c, Model: model.Store})
+		agree = false
+	}
+	// the Option values as constructed through the public API (before any call) against the model's
+	bs := make([][][]string, 0, len(built))
+	for _, o := range built {
+		bs = append(bs, o.Paths)
+	}
+	if !vh.CanonEq(c16NormPaths(ms), c16NormPaths(bs)) {
+		sig := "C16:option-paths"
+		if len(c.Build) > 0 {
+			sig = "C16:derived-option-paths"
+		}
+		ctx.Res.Disagree(vh.Disagreement{Signature: sig, What: fmt.Sprintf("designated paths of the constructed Option values: %s on the implementation, %s in the model (base paths ++ added paths)", vh.Canon(c16NormPaths(bs)), vh.Canon(c16NormPaths(ms))), Case: c, Model: model.Store, Impl: built})
 		agree = false
 	}
 	return agree, model, nil
@@ -869,6 +949,21 @@ func c16Stats(ctx *vh.Ctx, c *c16Case, agree bool) {
 	ctx.Res.Dist(fmt.Sprintf("depth=%d", depth))
 	ctx.Res.Dist(fmt.Sprintf("calls=%d/%s", len(c.Calls), c.Mode))
 	ctx.Res.Dist("stream=" + c.Kind)
+	if len(c.Build) > 0 {
+		derived := map[int]int{}
+		for i := range c.Build {
+			if c.Build[i].Op == "designate" {
+				derived[c.Build[i].Src]++
+			}
+		}
+		maxSib := 0
+		for _, n := range derived {
+			if n > maxSib {
+				maxSib = n
+			}
+		}
+		ctx.Res.Dist(fmt.Sprintf("build.maxSiblings=%d", maxSib))
+	}
 	for i := range c.Store {
 		o := &c.Store[i]
 		k := "empty"
@@ -921,6 +1016,9 @@ func c16ShapeKey(c *c16Case, model *c16Out) string {
 	for i := range c.Calls {
 		walk(c.Calls[i].G)
 		fmt.Fprintf(&sb, "%v", c.Calls[i].Ixs)
+	}
+	for i := range c.Build {
+		fmt.Fprintf(&sb, "<%s%d>", c.Build[i].Op[:1], c.Build[i].Src)
 	}
 	for i := range c.Store {
 		o := &c.Store[i]
@@ -993,7 +1091,7 @@ func c16One(ctx *vh.Ctx, c *c16Case, shrink bool) error {
 }
 
 func runC16(ctx *vh.Ctx) error {
-	ctx.Res.Rule = "random chains of nested graphs (depth<=3; lambdas with 6 option types incl. model.Option/retriever.Option, lambdas without option, fake ChatModel/Retriever components, passthrough nodes, reused keys across levels) x 1-5 Options (undesignated / designated by DesignateNode or DesignateNodeWithPath with 1-3 paths; values or callbacks or empty; valid targets, wrong type, unknown node, path below component/passthrough, empty path) x Invoke/Stream x pregel/dag; single calls, sequences of calls and concurrent calls sharing the same Option values; non-trivial = some node receives a value or a handler, or the call is rejected; distinct by (tree shape with types, option kinds and paths, call index sets)"
+	ctx.Res.Rule = "random chains of nested graphs (depth<=3; lambdas with 6 option types incl. model.Option/retriever.Option, lambdas without option, fake ChatModel/Retriever components, passthrough nodes, reused keys across levels) x 0-5 Options (built in one step, or by sequences of DesignateNode/DesignateNodeWithPath calls deriving several Options from shared bases; undesignated / designated by DesignateNode or DesignateNodeWithPath with 1-3 paths; values or callbacks or empty; valid targets, wrong type, unknown node, path below component/passthrough, empty path) x Invoke/Stream x pregel/dag; single calls, sequences of calls and concurrent calls sharing the same Option values; non-trivial = some node receives a value or a handler, or the call is rejected; distinct by (tree shape with types, option kinds and paths, call index sets)"
 	if ctx.Replay != nil {
 		var c c16Case
 		if err := json.Unmarshal(ctx.Replay, &c); err != nil {
